@@ -134,7 +134,7 @@ def main():
     hook = [l.split(' ')[0] for l in hooks_commit.split('\n') if 'verification hooks' in l]
     m = {
         'version': 1,
-        'setup_cmd': 'cd /verif/harness && CARGO_NET_OFFLINE=true cargo build --release --offline && cd /verif/lean && lake build Purr purrdriver',
+        'setup_cmd': 'cd /verif/harness && CARGO_NET_OFFLINE=true cargo build --release --offline && cd /verif/lean && lake build Purr purrdriver Purr.Props.C01 Purr.Props.C02 Purr.Props.C03 Purr.Props.C04 Purr.Props.C05 Purr.Props.C06 Purr.Props.C07 Purr.Props.C08 Purr.Props.C09 Purr.Props.C10 Purr.Props.C11 Purr.Props.C12 Purr.Props.C13 Purr.Props.C14 Purr.Props.C15 Purr.Props.C16 Purr.Props.C17 Purr.Props.C18 Purr.Props.C19',
         'hooks': {
             'guard': 'purr_verif',
             'enable': 'the harness crate /verif/harness has a path dependency on /repo and its .cargo/config.toml sets rustflags = ["--cfg", "purr_verif"]; '
